@@ -149,7 +149,7 @@ pub fn decode_total(data: &[u8]) -> c06::Case {
             0..=3 => Op::Next,
             4 => Op::Owned,
             5 | 6 => Op::ReadSet(a % 3),
-            7 | 8 => Op::ReadExact(a % 3, 1 + b % 8),
+            7 | 8 => Op::ReadExact(a % 3, if b >= 250 { b } else { 1 + b % 8 }),
             9 => Op::Seek(((a as u16) << 8) | b as u16),
             10 => {
                 if b >= 200 {
